@@ -116,6 +116,10 @@ func DigestPowershell(r io.Reader, style PsSigStyle, hash crypto.Hash) (*PsDiges
 		}
 		if line == first {
 			// remove EOL from previous line
+			if len(saved) < 2 || (isUtf16 && len(saved) < 4) {
+				// there is no previous line, or not enough of it
+				return nil, errors.New("malformed powershell signature")
+			}
 			if isUtf16 {
 				saved = saved[:len(saved)-4]
 				sigSize = 4
